@@ -11,14 +11,19 @@
 package consul
 
 import (
+	"crypto/x509"
 	"errors"
+	"fmt"
 
 	"github.com/hashicorp/go-hclog"
 	"github.com/hashicorp/raft"
 
+	"github.com/hashicorp/consul/acl"
+	"github.com/hashicorp/consul/agent/connect"
 	"github.com/hashicorp/consul/agent/consul/fsm"
 	"github.com/hashicorp/consul/agent/consul/state"
 	"github.com/hashicorp/consul/agent/structs"
+	"github.com/hashicorp/consul/proto/private/pbautoconf"
 )
 
 // VerifCADelegate implements caServerDelegate on top of a real FSM.
@@ -104,4 +109,81 @@ func VerifCANewManager(d *VerifCADelegate) *CAManager {
 func VerifCAActiveRoot(c *CAManager) *structs.CARoot {
 	_, r := c.getCAProvider()
 	return r
+}
+
+// VerifCAParseAutoConfigCSR is parseAutoConfigCSR: what AutoConfig.InitialConfiguration does with
+// the CSR of a request before jwtAuthorizer.Authorize compares id.Agent with the request's node
+// name and AutoConfig.updateTLSCertificatesInConfig hands (csr, id) to CAManager.SignCertificate.
+func VerifCAParseAutoConfigCSR(csr string) (*x509.CertificateRequest, *connect.SpiffeIDAgent, error) {
+	return parseAutoConfigCSR(csr)
+}
+
+// ---- the auto-config entry point: the real AutoConfig.InitialConfiguration with a real CAManager behind it ----
+
+type verifCAAutoConfigBackend struct {
+	mgr *CAManager
+	d   *VerifCADelegate
+}
+
+func (b *verifCAAutoConfigBackend) CreateACLToken(template *structs.ACLToken) (*structs.ACLToken, error) {
+	return nil, errors.New("verif: ACLs are disabled in this configuration")
+}
+func (b *verifCAAutoConfigBackend) DatacenterJoinAddresses(partition, segment string) ([]string, error) {
+	return nil, nil
+}
+func (b *verifCAAutoConfigBackend) ForwardRPC(method string, info structs.RPCInfo, reply interface{}) (bool, error) {
+	return false, nil
+}
+func (b *verifCAAutoConfigBackend) GetCARoots() (*structs.IndexedCARoots, error) {
+	_, roots, err := b.d.State().CARoots(nil)
+	if err != nil {
+		return nil, err
+	}
+	return &structs.IndexedCARoots{Roots: roots}, nil
+}
+
+// SignCertificate is autoConfigBackend.SignCertificate.
+func (b *verifCAAutoConfigBackend) SignCertificate(csr *x509.CertificateRequest, id connect.CertURI) (*structs.IssuedCert, error) {
+	return b.mgr.SignCertificate(csr, id)
+}
+
+// verifCAAutoConfigAuthorizer stands for jwtAuthorizer with a JWT that validates for Node: it runs
+// the part of jwtAuthorizer.Authorize that follows the claim assertions (parseAutoConfigCSR and the
+// comparison of the SPIFFE ID's agent name with the request's node name), copied line by line.
+type verifCAAutoConfigAuthorizer struct{}
+
+func (verifCAAutoConfigAuthorizer) Authorize(req *pbautoconf.AutoConfigRequest) (AutoConfigOptions, error) {
+	opts := AutoConfigOptions{NodeName: req.Node, SegmentName: req.Segment, Partition: req.Partition}
+	if req.CSR != "" {
+		csr, id, err := parseAutoConfigCSR(req.CSR)
+		if err != nil {
+			return AutoConfigOptions{}, err
+		}
+		if id.Agent != req.Node || !acl.EqualPartitions(id.Partition, req.Partition) {
+			return AutoConfigOptions{},
+				fmt.Errorf("Spiffe ID agent name (%s) of the certificate signing request is not for the correct node (%s)",
+					printNodeName(id.Agent, id.Partition),
+					printNodeName(req.Node, req.Partition),
+				)
+		}
+		opts.CSR = csr
+		opts.SpiffeID = id
+	}
+	return opts, nil
+}
+
+// VerifCAAutoConfigSign runs AutoConfig.InitialConfiguration (the real one: datacenter test of the
+// request, the updaters, updateTLSCertificatesInConfig -> SignCertificate) for a request of node
+// `node` carrying the CSR, and returns the PEM of the issued certificate.
+func VerifCAAutoConfigSign(mgr *CAManager, d *VerifCADelegate, node, csrPEM string) (string, error) {
+	ac := NewAutoConfig(d.Conf, nil, &verifCAAutoConfigBackend{mgr: mgr, d: d}, verifCAAutoConfigAuthorizer{})
+	req := &pbautoconf.AutoConfigRequest{Node: node, CSR: csrPEM}
+	var resp pbautoconf.AutoConfigResponse
+	if err := ac.InitialConfiguration(req, &resp); err != nil {
+		return "", err
+	}
+	if resp.Certificate == nil {
+		return "", errors.New("verif: no certificate in the auto-config response")
+	}
+	return resp.Certificate.CertPEM, nil
 }
